@@ -53,24 +53,26 @@ LEAVES = [
     L("t1.k3", [TRI1, ["k3", []]], "string", ["key"], entry="t1", key="t3", fam=["mkey3"]),
     L("t1.v", [TRI1, ["v", []]], "string", S, entry="t1", fam=["mkey3"]),
     # plain container without defaults / constraints (core family)
-    L("pl.a", [["plain", []], ["a", []]], "string", S, fam=["core", "choice", "mkey"]),
+    L("pl.a", [["plain", []], ["a", []]], "string", S, fam=["core", "choice", "mkey", "pres"]),
     L("pl.ab", [["plain", []], ["ab", []]], "string", S, fam=["core"]),
     L("pl.s", [["plain", []], ["sub", []], ["s", []]], "string", S, fam=["core"]),
-    L("pl.n", [["plain", []], ["n", []]], "uint16", ["u:1", "u:10"], fam=["valid"], bad=[["u:11", "range"]]),
+    L("pl.n", [["plain", []], ["n", []]], "uint16", ["u:1", "u:10"], fam=["valid", "cross"], bad=[["u:11", "range"]]),
     # sys: constraints, defaults, presence, second namespace
-    L("s.host", [["sys", []], ["host", []]], "string", ["s:abc", "s:h2"], fam=["valid", "dflt"], bad=[["s:abcdefghij", "length"], ["s:1abc", "pattern"]]),
+    L("s.host", [["sys", []], ["host", []]], "string", ["s:abc", "s:h2"], fam=["valid", "dflt", "cross"], bad=[["s:abcdefghij", "length"], ["s:1abc", "pattern"]]),
     L("s.hostname", [["sys", []], ["hostname", []]], "string", S, fam=["valid"]),
     L("s.desc", [["sys", []], ["desc", []]], "string", ["s:none", "s:d"], default="s:none", fam=["dflt"]),
     L("s.primary", [["sys", []], ["primary", []]], "leafref", ["s:$k1", "s:$k2"], fam=["valid"]),
-    L("s.guard", [["sys", []], ["guard", []]], "boolean", ["b:true", "b:false"], fam=["valid"]),
-    L("s.tags", [["sys", []], ["tags", []]], "leaf-list:string", ["ll:s:t1", "ll:s:t1|s:t2"], kind="leaflist", fam=["valid"], bad=[["ll:s:t1|s:t2|s:t3", "maxelements"]]),
+    L("s.guard", [["sys", []], ["guard", []]], "boolean", ["b:true", "b:false"], fam=["valid", "cross"]),
+    L("s.tags", [["sys", []], ["tags", []]], "leaf-list:string", ["ll:s:t1", "ll:s:t1|s:t2"], kind="leaflist", fam=["valid", "pres"], bad=[["ll:s:t1|s:t2|s:t3", "maxelements"]]),
     L("s.feat", [["sys", []], ["feat", []]], "presence", ["e:"], kind="presence", fam=["dflt"]),
     L("s.feat.level", [["sys", []], ["feat", []], ["level", []]], "uint8", ["u:1", "u:2"], default="u:1", fam=["dflt"]),
-    L("s.svc", [["sys", []], ["svc", []]], "presence", ["e:"], kind="presence", fam=["valid"]),
-    L("s.svc.id", [["sys", []], ["svc", []], ["id", []]], "uint32", ["u:1", "u:2"], fam=["valid"]),
+    L("s.svc", [["sys", []], ["svc", []]], "presence", ["e:"], kind="presence", fam=["valid", "pres", "cross"]),
+    L("s.svc.id", [["sys", []], ["svc", []], ["id", []]], "uint32", ["u:1", "u:2"], fam=["valid", "pres", "cross"]),
     L("s.svc.note", [["sys", []], ["svc", []], ["note", []]], "string", S, fam=["valid"]),
     L("s.ext", [["sys", []], ["ext", []]], "string", S, fam=["ns"]),
     L("s.xc.inner", [["sys", []], ["xc", []], ["inner", []]], "string", S, fam=["ns"]),
+    L("ty.e", [["types", []], ["e", []]], "empty", ["e:"], fam=["pres"]),
+    L("ty.u64", [["types", []], ["u64", []]], "uint64", ["u:18446744073709551615", "u:1"], fam=["types"]),
     # top level choice with prefix related non member
     L("c.x", [["ch", []], ["alpha", []], ["x", []]], "string", S, choice="ch.kind", case="a", fam=["choice"]),
     L("c.y", [["ch", []], ["beta", []], ["y", []]], "string", S, choice="ch.kind", case="b", fam=["choice"]),
